@@ -711,6 +711,7 @@ class SymEval:
         self.fn_stack = []
         self.module = getattr(aliases, 'module', None)      # ast.Module: module-level `NAME = {}` / `[]` / constant bindings become visible (one fresh object per evaluator)
         self.np_override = {}   # dotted numpy name -> model function (consulted before NP_FUNCS)
+        self._module_busy = set()
         self.globals = {}       # module-level names visible in every inlined function (rule-provided models of imports)
 
     # ------------------------------------------------------------ names
@@ -757,6 +758,14 @@ class SymEval:
                     if isinstance(v, ast.Constant) or (isinstance(v, ast.Dict) and not v.keys) or (isinstance(v, (ast.List, ast.Tuple)) and not v.elts):
                         self.globals[n.id] = self.ev(v, Path({}))
                         return self.globals[n.id]
+                    # a computed module-level table / constant: evaluated once per evaluator, in the module's own scope
+                    if n.id not in self._module_busy:
+                        self._module_busy.add(n.id)
+                        try:
+                            self.globals[n.id] = self.ev(v, Path({}))
+                        finally:
+                            self._module_busy.discard(n.id)
+                        return self.globals[n.id]
         if n.id in ('True', 'False', 'None'):
             return {'True': True, 'False': False, 'None': None}[n.id]
         if n.id in self.classes:
@@ -786,7 +795,7 @@ class SymEval:
                     'abs': lambda x: sp.Abs(x), 'sum': lambda x: sum(x), 'min': lambda *a: sp.Min(*(a[0] if len(a) == 1 else a)),
                     'max': lambda *a: sp.Max(*(a[0] if len(a) == 1 else a)), 'list': list, 'tuple': tuple,
                     'isinstance': lambda *a: Opaque, 'complex': lambda a, b=0: a + sp.I * b, 'round': lambda x, n=0: x,
-                    'zip': lambda *a: list(zip(*a)), 'enumerate': lambda a: list(enumerate(a)), 'str': str}[n.id]
+                    'zip': lambda *a: list(zip(*[self.iterate(x, n) for x in a])), 'enumerate': lambda a, start=0: list(enumerate(self.iterate(a, n), int(start))), 'str': str}[n.id]
         if n.id == 'iter':
             return lambda x: _ModelIter(self.iterate(x, n))
         if n.id == 'next':
